@@ -112,6 +112,24 @@ func init() {
 			cases = append(cases, Case{ID: fmt.Sprintf("w%d", i), Op: "window",
 				Fields: []string{hx(kind), hx(body), hx(text)}, Meta: map[string]string{}})
 		}
+		// non-ASCII texts whose characters are consumed by ONE read (a literal of several bytes, whole line, a
+		// back-reference): every clause against the window of the implementation's own `all` result, columns included
+		nbodies := []string{"('\u00e9' or 'e')", "'\u00e9'", "'cr\u00e8me'", "(letter = l) '\u00e9'", "whole line", "('\u00e9' = x) maybe x",
+			"'\u20ac' at least 1 digit", "in '\u00e9', 'e', 't'"}
+		ntexts := []string{"\u00e9t\u00e9 de m\u00e9m\u00e9", "\u00e9\n\u00e9 \u00e9", "cr\u00e8me cr\u00e8me\ncr\u00e8me", "\u20ac12 \u20ac7 x\u20ac3", "\u00e9\u00e9\u00e9\u00e9\u00e9"}
+		for bi, nb := range nbodies {
+			for ti, nt := range ntexts {
+				for ki, kind := range []string{"find", "replace"} {
+					body := nb
+					if kind == "replace" {
+						body += " with '<' value '>' columnNumber"
+					}
+					st.Features["window-non-ascii-single-read"]++
+					cases = append(cases, Case{ID: fmt.Sprintf("wn%d.%d.%d", bi, ti, ki), Op: "window",
+						Fields: []string{hx(kind), hx(body), hx(nt)}, Meta: map[string]string{}})
+				}
+			}
+		}
 		// the general stream too: programs with amount clauses, model vs implementation
 		scfg := GenCfg{MaxDepth: 2, Captures: true, Anchors: true, Amounts: true, Replace: true}
 		cases = append(cases, searchCases(r, st, sizes(tier, 600, 10000), scfg, 3, 16, "g")...)
